@@ -50,6 +50,23 @@ pub mod verif_facade {
                 }
                 "sched" => crate::work::verif_sched::sched(&args),
                 "dirty1" => crate::work::verif_dirty::dirty1(&args),
+                "loadinc" => {
+                    // loadinc <main> (<name> <content>)*: included files are written to a scratch directory first
+                    let dir = std::env::temp_dir().join(format!("n2verif-inc-{}", std::process::id()));
+                    let _ = std::fs::remove_dir_all(&dir);
+                    std::fs::create_dir_all(&dir).unwrap();
+                    let old = std::env::current_dir().unwrap();
+                    let mut i = 1;
+                    while i + 1 < args.len() {
+                        std::fs::write(dir.join(&args[i]), arg(i + 1)).unwrap();
+                        i += 2;
+                    }
+                    std::env::set_current_dir(&dir).unwrap();
+                    let r = crate::load::verif_load_text(arg(0));
+                    std::env::set_current_dir(&old).unwrap();
+                    let _ = std::fs::remove_dir_all(&dir);
+                    r
+                }
                 "load" => crate::load::verif_load_text(arg(0)),
                 "canon" => {
                     let mut s = unsafe { String::from_utf8_unchecked(arg(0)) };
